@@ -16,11 +16,15 @@ PSEL = {"p565": 0, "p332": 0, "g4": 0, "c4444": 0, "p4444": 1, "p5551": 2}
 
 BINARIES = ([("h1_%d" % t, ("PART=1", "TSEL=%d" % t)) for t in range(3)] + [("h2_%d" % t, ("PART=2", "TSEL=%d" % t)) for t in range(3)] +
             [("p3_%d" % q, ("PART=3", "PSEL=%d" % q)) for q in range(3)] +
-            [("a4_%d" % t, ("PART=4", "TSEL=%d" % t)) for t in range(3)] + [("a5_%d" % t, ("PART=5", "TSEL=%d" % t)) for t in range(3)])
+            [("a4_%d" % t, ("PART=4", "TSEL=%d" % t)) for t in range(3)] + [("a5_%d" % t, ("PART=5", "TSEL=%d" % t)) for t in range(3)] +
+            [("s6", ("PART=6",)), ("s7", ("PART=7",))])
+# packed pixels whose channels do not fill the bit field: name -> (bits per colour, carrier bits)
+SPARESETS = {"rgb": {"s432": ([4, 3, 2], 16), "s565w": ([5, 6, 5], 32), "s222": ([2, 2, 2], 8)}, "rgba": {"s5551w": ([5, 5, 5, 1], 32)}, "gray": {"sg3": ([3], 8)}}
 
 def route(op):
     w = op.split(); cs, t = w[1], w[2]
     if w[0] == "alg": return ("a5_%d" if cs == "rgba" else "a4_%d") % TYPES.index(t)
+    if w[0] == "spare": return "s7" if cs == "rgba" else "s6"
     if t in TYPES: return ("h2_%d" if cs == "rgba" else "h1_%d") % TYPES.index(t)
     return "p3_%d" % PSEL[t]
 
@@ -82,7 +86,7 @@ def gen_ops(ctx):
                         v = distinct_vals(r, n, 15)
                         w = dst_values(v, md, ms, 15)        # p2 colour-equal to p1 now and then
                         ops.append("alg %s %s %s %s %s | %s" % (cs, t, dl, sl, lst(v), lst(w)))
-                for m in ["V", "R"] + (["P", "I"] if n >= 2 and ident(md) else []):
+                for m in ["V", "R"] + (["P", "Q", "I"] if n >= 2 and ident(md) else []):
                     for _ in range(reps):
                         ops.append("acc %s %s %s %s %s" % (cs, t, m, dl, lst(distinct_vals(r, n, TMAX[t]))))
         # ---- packed / bit-aligned family
@@ -104,6 +108,15 @@ def gen_ops(ctx):
                 for m in ("K", "B"):
                     for _ in range(reps):
                         ops.append("acc %s %s %s %s %s" % (cs, t, m, dl, lst(vals_for(md))))
+        # ---- packed pixels with spare bits: dst built from a raw bit field (spare bits 0, all ones, random), then assigned channel-wise
+        for t, (by_colour, W) in SPARESETS.get(cs, {}).items():
+            for dl, md in ls:
+                for sl, ms in ls:
+                    ws = [by_colour[ms.index(k)] for k in range(n)]
+                    for sm in ("K", "B"):
+                        for raw in [0, (1 << W) - 1] + [r.below(1 << W) for _ in range(reps)]:
+                            v = [r.below(1 << wd) for wd in ws]
+                            ops.append("spare %s %s %s %s %s %d %s" % (cs, t, dl, sm, sl, raw, lst(v)))
     return ops, {name: mp for name, cs, cols, mp in table}
 
 def nontrivial(op, maps):
@@ -113,12 +126,14 @@ def nontrivial(op, maps):
     if w[0] == "pair": return nonid(w[4]) or nonid(w[6]) or w[3] != w[5]
     if w[0] == "acc": return nonid(w[4]) or w[3] != "V"
     if w[0] == "alg": return nonid(w[3]) or nonid(w[4])
+    if w[0] == "spare": return int(w[6]) != 0                      # spare bits pre-loaded with something
     return False
 
 ASSUME = [
     "Spec of the provided layouts: the layout's name spells the memory order (argb = alpha, red, green, blue in memory); gray, cmyk and devicenN: memory order = colour-space order",
     "C++ template selection (which constructor / operator= / static_* overload a pair of pixel types picks) is observed on the enumerated type pairs, not proven",
     "float32 channels carry small integers (exactly representable): this property is about pairing, not about arithmetic",
+    "packed pixels with unused bits (4-3-2 in uint16_t, 5-6-5 and 5-5-5-1 in uint32_t, 2-2-2 and 3 in uint8_t): equality must depend on the named colours only; the unused bits are pre-loaded with 0, all ones and random bits through packed_pixel(BitField)",
     "packed and bit-aligned pixels are compatible only among themselves (their channel value type is packed_channel_value<N>): they are paired with each other, homogeneous models with each other",
 ]
 
@@ -161,13 +176,14 @@ def run(ctx, ops=None):
     kinds, combos = {}, set()
     for o in ops:
         w = o.split(); kinds[w[0]] = kinds.get(w[0], 0) + 1
-        combos.add(tuple(w[:7]) if w[0] == "pair" else tuple(w[:5]))
+        combos.add(tuple(w[:7]) if w[0] == "pair" else tuple(w[:6]) if w[0] == "spare" else tuple(w[:5]))
     distinct = len({o for o in ops if nontrivial(o, maps)})
     return vlib.finish(ctx, "proof", obligations, discharged,
         rule="op lines (harness/C05/main.cpp): every ordered pair of provided layouts of each colour space (rgb 2, rgba 4, cmyk, gray, devicen2..5) x destination models "
              "{value, reference into an interleaved buffer, planar reference, planar reference bound to an interleaved pixel | packed_pixel, bit-aligned reference} x source models "
              "{value, planar reference, read-only planar reference | packed_pixel, bit-aligned reference, read-only bit-aligned reference} x {u8,u16,f32 | 6 packed size sets}, "
-             "channel values distinct tags, destination initially random / colour-equal / constant; acc and alg lines for every layout (pair). "
+             "channel values distinct tags, destination initially random / colour-equal / constant; acc (every run-time index read and written) and alg lines for every layout (pair); "
+             "spare lines: packed pixels with unused bits pre-loaded, == / != against same-type pixels with equal colours and different unused bits. "
              "non-trivial = distinct op line involving a non-identity layout or two different pixel models",
         samples=samples, distinct_nontrivial=distinct, assumptions=ASSUME, trusted_base=vlib.TRUSTED_BASE,
         extra={"ops_by_kind": kinds, "type_model_layout_combinations": len(combos),
